@@ -399,6 +399,13 @@ def run_history(ctx, FST, hseed, tier='quick'):
         label, src = corpus.window(rnd, max_len=2500)
     if rnd.random() < 0.4:
         src, _ = corpus.relayout(src, rnd, kinds=['comments', 'comment_lines', 'parens', 'unicode', 'tabs'], n=2)
+    from .c11 import has_debug_fstring
+    try:
+        if has_debug_fstring(ast.parse(src)):
+            ctx.count('program_with_debug_fstring_skipped(AST edit of {x=} is ill-defined)')
+            return
+    except SyntaxError:
+        return
     try:
         root = FST(src, 'exec')
         donor = FST(DONOR, 'exec')
